@@ -33,7 +33,7 @@ func init() {
 				"C04.batch (block transactions / internal transactions are the in-order concatenation over frame.Events of each event's own slice; frame events are createFrameEvent(h) for exactly the ReceivedEvents of the frame's round; ReceivedEvents is appended only under the round-received action), " +
 				"C04.once (an event leaves the undetermined queue iff it was received; the queue is replaced by the remainder on the success exit; only InsertEvent appends to it; a committed round is never processed again). " +
 				"NOT decided: monotonicity of round-received along ancestry for actual DAGs (a theorem about lastAncestors maintenance, partly covered by C01.see)."},
-		Rules: []ruleFunc{c04lamport, c04sort, c04batch, c04once, func(p *Prog, r *Report) { onceRule(p, r, "C04.roundonce") }, func(p *Prog, r *Report) { undecidedSkipRule(p, r, "C04.undecided") }},
+		Rules: []ruleFunc{c04lamport, c04sort, c04batch, c04once, func(p *Prog, r *Report) { onceRule(p, r, "C04.roundonce") }, func(p *Prog, r *Report) { undecidedSkipRule(p, r, "C04.undecided") }, func(p *Prog, r *Report) { submitCopyRule(p, r, "C04.copy") }},
 	})
 }
 
